@@ -37,6 +37,8 @@ CONFIGS = [
     ("nsga3_std", "nsga3", {"nd": "standard"}, "NSGA-III with memory"),
     ("nsga3_comma", "nsga3", {"nd": "log", "comma": True}, "NSGA-III with memory (selection among offspring only)"),
     ("gp", "gp", {}, "GP with ephemerals"),
+    ("gp_adf", "gp_adf", {}, "GP with ephemerals (automatically defined functions: individuals are lists of trees)"),
+    ("ga_constrained", "ga_constrained", {}, "GA on lists (ConstrainedFitness)"),
     ("gp_typed_builtin", "gp_typed", {"variant": "builtin"}, "GP with ephemerals (typed, builtin types)"),
     ("gp_typed_heap", "gp_typed", {"variant": "heap"}, "GP with ephemerals (typed, user classes as types)"),
     ("cma", "cma", {}, "CMA-ES"),
